@@ -661,8 +661,8 @@ def run(ctx: Context):
             raise AnalysisError("LeaseInfo accessors do not evaluate to arithmetic expressions")
         NOW, OVR, CUT = Poly.atom("now"), Poly.atom("self.override_lease_duration"), Poly.atom("self.cutoff_date")
         want = {
-            "age+override": (AGE - OVR, "renewal time + override_lease_duration < now"),
-            "age, lease's own duration": (NOW - EXP, "the lease's own expiration time < now"),
+            "age-override": (AGE - OVR, "renewal time + override_lease_duration < now"),
+            "age-own-duration": (NOW - EXP, "the lease's own expiration time < now"),
             "cutoff-date": (CUT - REN, "renewal time < cutoff_date"),
         }
         r.sample({"age": str(AGE), "expiration": str(EXP), "renewal": str(REN)})
@@ -714,16 +714,16 @@ def run(ctx: Context):
                 has = ("is not", "None", "self.override_lease_duration") in facts
                 hasnt = ("is", "None", "self.override_lease_duration") in facts
                 if has and not hasnt:
-                    case = "age+override"
+                    case = "age-override"
                 elif hasnt and not has:
-                    case = "age, lease's own duration"
+                    case = "age-own-duration"
                 else:
                     case = None
             else:
                 case = "cutoff-date"
             if case is None:
                 if cancel or not type_out:
-                    report("age+override", anchor, "age mode: a lease is %s on a path that does not test "
+                    report("age-override", anchor, "age mode: a lease is %s on a path that does not test "
                            "self.override_lease_duration against None" % ("queued for cancellation" if cancel else "kept"),
                            trail)
                 continue
